@@ -18,7 +18,7 @@ from pyvc import contract as C
 BUILTINS = {'isinstance', 'len', 'list', 'dict', 'set', 'tuple', 'zip',
             'enumerate', 'reversed', 'range', 'sorted', 'callable', 'hasattr',
             'getattr', 'str', 'bool', 'map', 'all', 'any', 'type', 'min',
-            'max', 'repr', 'next', 'iter', 'hash', 'int'}
+            'max', 'repr', 'next', 'iter', 'hash', 'int', 'sum'}
 MODULES = {'config_parser', 'selector_map', 'utils', 'copy', 'inspect', 'os',
            'tokenize', 'ast', 'logging', 'functools', 'threading',
            'collections', 'pprint', 'traceback', 're', 'io', 'typing', 'enum',
@@ -556,6 +556,14 @@ def call_builtin(ex, name, args, kwargs, node):
     if isinstance(it, list):
       return VTuple([ex.call(fn, [x], {}, node) for x in it])
     return Iter(it.len, lambda j: ex.call(fn, [it.at(j)], {}, node))
+  if name == 'sum' and len(args) == 1:
+    from pyvc.exec import Iter
+    v = args[0]
+    if isinstance(v, (Iter, VList)):
+      # only what is certain about a sum of truth values: it lies between 0 and the length
+      n = ex.path.fresh_const('sum', sym.IntS)
+      ex.path.assume(z3.And(n >= 0, n <= v.len))
+      return VInt(n)
   if name == 'hash':
     return VObj(sym.ufun('py_hash', sym.Val, sym.Val)(sym.to_val(args[0])))
   if name == 'repr':
